@@ -34,6 +34,15 @@ FIRST = {
     "C06-6": "missed by C06 (caught by C02): a retry performed in another input directory stays inside that directory",
     "C02-5": "missed by C02 (caught by C16 once -v was added to its CLI stream): plans are stateless in the C02 harness",
     "C02-6": "missed by C02 (caught by C07 once hard links were added): no hard links in the C02 trees",
+    "C09-5": "missed; every rejected template is re-run on single files and a one-file directory (the verdict must not depend on how many files are selected)",
+    "C09-6": "missed; two input directories with a common relative name, accepted runs re-checked file by file",
+    "C13-4": "missed (no named baseline was silently accepted); positional baseline fallback: a documented parameter name must be usable as a named argument",
+    "C13-5": "missed by C13; caught by the C09 single-file differential",
+    "C14-4": "missed by C14 (caught by C08 multiroot_order): sort values remembered per relative path",
+    "C14-5": "missed by C14 (caught by C08): empty strings ordered last",
+    "C15-6": "missed; alias patterns whose mistake sits after a line break",
+    "C16-4": "missed; more than 128 directories visited in interleaved order",
+    "C19-4": "missed; the processed entry is a symbolic link to the file",
 }
 rows = ["| seed | change (as its author described it) | detected by | first attempt |", "|---|---|---|---|"]
 for d in sorted(glob.glob(str(VERIF / "seeded" / "*"))):
